@@ -37,4 +37,30 @@ Definition mon_C06 : monitor unit :=
   {| m_init := fun _ ob => (tt, if forallb (fun l => o_window l =? 20000) ob then 0%N else 7%N);
      m_step := fun _ o p n => (tt, c06_links o O p n) |}.
 
-Definition check_case (c : case) : N := check_with mon_C06 c.
+(** Cases of C06: a core history, or one REAL housekeeping pass ([CHk classic before after],
+    the flat list of (window, fast-recovery flag) per link before and after the pass, every
+    link alive).  Clause 9: in classic mode a housekeeping pass changes no window (no time-based
+    recovery); in every mode the range and direction clauses hold. *)
+Inductive case6 := CCore (c : case) | CHk (classic : bool) (before after : list Z).
+
+Fixpoint hk_ok (classic : bool) (b a : list Z) : bool :=
+  match b, a with
+  | [], [] => true
+  | w :: f :: b', w' :: f' :: a' =>
+    (1000 <=? w') && (w' <=? 60000) && (w <=? w') &&
+    (if classic then (w' =? w) && (f' =? f) else true) &&
+    (if (f =? 1) && (f' =? 0) then 12000 <=? w' else true) &&
+    (if (f =? 0) && (f' =? 1) then false else true) && hk_ok classic b' a'
+  | _, _ => false
+  end.
+(** the model of a classic pass over alive links: nothing in the accounting view moves *)
+Definition hk_model (classic : bool) (b : list Z) : option (list Z) := if classic then Some b else None.
+
+Definition check_case (c : case6) : N :=
+  match c with
+  | CCore c => check_with mon_C06 c
+  | CHk classic b a =>
+    ((match hk_model classic b with Some m => if zlist_eqb m a then 0 else 1 | None => 0 end) +
+     (if hk_ok classic b a then 0 else 2 + 4 * 9))%N
+  end.
+Notation case := case6.
